@@ -14,6 +14,7 @@ from ..cfg import CFG, EXIT, RAISE
 from ..model import calls_in, call_name, kwarg, real_body, u
 from ..nf import NF, Opaque, attr, ctor_args, show, sym
 from .c13 import _controlling_tests, _raise_nodes
+from ..tmpl import T, tmatch
 
 ENV = "hugr.envelope"
 RUST = "hugr-core/src/envelope/header.rs"
@@ -36,6 +37,77 @@ def rust_tables(ctx):
     if not variants or not fl or not zb or not ap:
         ctx.broken(f"{RUST}: tables not found")
     return m.group(1).encode(), variants, {variants[x] for x in printable}, int(fl.group(1), 2), int(zb.group(1), 0)
+
+
+def const_int(txt: str):
+    """value of an expression made of integer literals and | & + << only (else None)"""
+    try:
+        e = ast.parse(txt, mode="eval").body
+    except SyntaxError:
+        return None
+
+    def ev(n):
+        if isinstance(n, ast.Constant) and isinstance(n.value, int) and not isinstance(n.value, bool):
+            return n.value
+        if isinstance(n, ast.BinOp):
+            a, b = ev(n.left), ev(n.right)
+            if a is None or b is None:
+                return None
+            if isinstance(n.op, ast.BitOr):
+                return a | b
+            if isinstance(n.op, ast.BitAnd):
+                return a & b
+            if isinstance(n.op, ast.Add):
+                return a + b
+            if isinstance(n.op, ast.LShift):
+                return a << b
+        return None
+    return ev(e)
+
+
+def byte_parts(p, value):
+    """the bytes a path returns as a list of ("bytes", expr) / ("byte", expr) parts in order; None when not understood.
+    Understands bytes(x) / bytearray(x), a + b, and a bytearray accumulator with append / extend / += effects."""
+    def parts(e, depth=0):
+        if depth > 6:
+            return None
+        if isinstance(e, ast.Call) and u(e.func) in ("bytes", "bytearray") and len(e.args) == 1 and not e.keywords:
+            if isinstance(e.args[0], ast.List):       # bytes([a, b])
+                return [("byte", u(x)) for x in e.args[0].elts]
+            return parts(e.args[0], depth + 1)
+        if isinstance(e, ast.BinOp) and isinstance(e.op, ast.Add):
+            a, b = parts(e.left, depth + 1), parts(e.right, depth + 1)
+            return None if a is None or b is None else a + b
+        if isinstance(e, ast.Name):
+            init = [x for x in p.effects if isinstance(x, ast.Assign) and u(x.targets[0]) == e.id]
+            if len(init) != 1:
+                return [("bytes", e.id)]
+            out = parts(init[0].value, depth + 1)
+            if out is None:
+                return None
+            for x in p.effects[p.effects.index(init[0]) + 1:]:
+                if isinstance(x, ast.AugAssign) and u(x.target) == e.id and isinstance(x.op, ast.Add):
+                    r = parts(x.value, depth + 1)
+                    if r is None:
+                        return None
+                    out += r
+                elif isinstance(x, ast.Expr) and isinstance(x.value, ast.Call) and isinstance(x.value.func, ast.Attribute) and u(x.value.func.value) == e.id:
+                    if x.value.func.attr == "append" and len(x.value.args) == 1:
+                        out.append(("byte", u(x.value.args[0])))
+                    elif x.value.func.attr == "extend" and len(x.value.args) == 1:
+                        r = parts(x.value.args[0], depth + 1)
+                        if r is None:
+                            return None
+                        out += r
+                    else:
+                        return None
+            return out
+        return [("bytes", u(e))]
+    from ..rulekit import unold
+    try:
+        return parts(ast.parse(unold(value), mode="eval").body)
+    except SyntaxError:
+        return None
 
 
 def _is_compressed(e, block) -> bool:
@@ -77,66 +149,106 @@ def run(ctx) -> None:
     tb, fb = hd.methods.get("to_bytes"), hd.methods.get("from_bytes")
     if tb is None or fb is None:
         ctx.broken("anchor vanished: EnvelopeHeader.to_bytes / from_bytes")
-    src = u(tb)
-    base = [s for s in ast.walk(tb) if isinstance(s, ast.Assign) and u(s.targets[0]) == "flags"]
-    ok = len(base) == 1 and isinstance(base[0].value, ast.Constant) and base[0].value.value == flags_r and (flags_r >> 6) == 0b01
-    ctx.check(ok, "C09.R1", "EnvelopeHeader.to_bytes: flag constant", m.path, tb.lineno, "bits 7,6 of the flags byte must be 0,1 (the Rust constant)", tb,
-              expected=bin(flags_r), found=u(base[0].value) if base else "")
-    order_ok = "bytearray(MAGIC_NUMBERS)" in src and src.index("append(self.format.value)") < src.index("append(flags)")
-    ctx.check(order_ok, "C09.R1", "EnvelopeHeader.to_bytes: layout", m.path, tb.lineno, "the header is magic, then the format byte, then the flags byte", tb)
+    # ---- the header encoder as a byte sequence per path (path summaries: locals / temporaries / statement forms do not matter)
+    tps = [p for p in ctx.paths(f"{ENV}.EnvelopeHeader.to_bytes") if p.kind != "raise"]
+    ok_const = ok_layout = ok_bit = bool(tps)
+    seen = set()
+    found = ""
+    for p in tps:
+        parts = byte_parts(p, p.value) if p.kind == "return" else None
+        z = [k for t, k in p.tests if u(t) == "self.zstd"]
+        found = str(parts)
+        if parts is None or len(parts) != 3 or not z:
+            ok_const = ok_layout = ok_bit = False
+            continue
+        seen.add(z[0])
+        ok_layout = ok_layout and parts[0] == ("bytes", "MAGIC_NUMBERS") and parts[1] == ("byte", "self.format.value") and parts[2][0] == "byte"
+        fv = const_int(parts[2][1])
+        ok_const = ok_const and fv is not None and (fv & ~zmask_r) == flags_r and (flags_r >> 6) == 0b01
+        ok_bit = ok_bit and fv is not None and bool(fv & zmask_r) == z[0]
+    ctx.check(ok_const, "C09.R1", "EnvelopeHeader.to_bytes: flag constant", m.path, tb.lineno, "bits 7,6 of the flags byte must be 0,1 (the Rust constant)", tb,
+              expected=bin(flags_r), found=found)
+    ctx.check(ok_layout, "C09.R1", "EnvelopeHeader.to_bytes: layout", m.path, tb.lineno, "the header is magic, then the format byte, then the flags byte", tb, found=found)
     # header length: 8 + 1 + 1 = 10 used consistently
-    lens = [c for c in ast.walk(fb) if isinstance(c, ast.Compare) and "len(data)" in u(c)]
+    fps = ctx.paths(f"{ENV}.EnvelopeHeader.from_bytes")
+    dp = fb.args.args[-1].arg
+    rets = [p for p in fps if p.kind == "return"]
     re_ = prog.module(ENV).functions.get("read_envelope")
-    sl = [n for n in ast.walk(re_) if isinstance(n, ast.Subscript) and isinstance(n.slice, ast.Slice) and u(n.value) == "envelope"]
-    ok = len(lens) == 1 and u(lens[0]) in ("len(data) < 10", "10 > len(data)") and len(sl) == 1 and u(sl[0].slice) == "10:" and "data[:8]" in u(fb) and "data[8]" in u(fb) and "data[9]" in u(fb)
+    rps = ctx.paths(f"{ENV}.read_envelope")
+    ep = re_.args.args[0].arg
+    sl = {u(n.slice) for p in rps for x in list(p.effects) + ([p.value] if p.value is not None else []) for n in ast.walk(x)
+          if isinstance(n, ast.Subscript) and isinstance(n.slice, ast.Slice) and u(n.value) == ep}
+    ok = bool(rets) and all(p.has_test(f"len({dp}) < 10", False) is not None and p.has_test(f"{dp}[:8] == MAGIC_NUMBERS", True) is not None for p in rets) and sl == {"10:"}
+    hdr_args = [tmatch(p.value, T("EnvelopeHeader(E_f, E_z)")) or tmatch(p.value, T("cls(E_f, E_z)")) for p in rets]
+    ok = ok and all(e is not None and e["E_f"] == f"EnvelopeFormat({dp}[8])" and f"{dp}[9]" in e["E_z"] for e in hdr_args)
     ctx.check(ok, "C09.R1", "header length 10 used consistently", m.path, fb.lineno,
-              "the decoder's length test, its byte positions (0..8 magic, 8 format, 9 flags) and the payload offset must all agree with the 10-byte header", fb)
+              "the decoder's length test, its byte positions (0..8 magic, 8 format, 9 flags) and the payload offset must all agree with the 10-byte header", fb,
+              found="; ".join(p.describe() for p in fps)[:300])
     doc = ast.get_docstring(m.tree) or ""
     ok = "10 bytes" in doc and "Bit 0: Whether the payload is compressed with zstd" in doc and 'Constant "01"' in doc
     ctx.check(ok, "C09.R1", "module documentation of the header", m.path, 1, "the documented header layout must be the implemented one", None)
     # ---- R2
-    zset = [n for n in ast.walk(tb) if isinstance(n, ast.If) and u(n.test) == "self.zstd"]
-    ok = len(zset) == 1 and any(isinstance(s, ast.AugAssign) and isinstance(s.op, ast.BitOr) and isinstance(s.value, ast.Constant) and s.value.value == zmask_r for s in zset[0].body)
-    ctx.check(ok, "C09.R2", "EnvelopeHeader.to_bytes: bit 0 = zstd", m.path, tb.lineno, "bit 0 of the flags byte is set exactly when the header says zstd", tb)
-    zr = [s for s in ast.walk(fb) if isinstance(s, ast.Assign) and u(s.targets[0]) == "zstd"]
-    ok = len(zr) == 1 and u(zr[0].value) in (f"bool(flags & {zmask_r})", "bool(flags & 1)", "bool(flags & 0b00000001)".replace("0b00000001", "1"))
+    ctx.check(ok_bit and seen == {True, False}, "C09.R2", "EnvelopeHeader.to_bytes: bit 0 = zstd", m.path, tb.lineno, "bit 0 of the flags byte is set exactly when the header says zstd", tb)
+    ok = bool(hdr_args)
+    zfound = ""
+    for e in hdr_args:
+        if e is None:
+            ok = False
+            continue
+        zfound = e["E_z"]
+        zt = ast.parse(e["E_z"], mode="eval").body
+        mk = tmatch(zt, T(f"bool({dp}[9] & E_m)")) or tmatch(zt, T(f"{dp}[9] & E_m != 0")) or tmatch(zt, T(f"({dp}[9] & E_m) != 0")) or tmatch(zt, T(f"{dp}[9] & E_m == E_m")) \
+            or tmatch(zt, T(f"({dp}[9] & E_m) > 0"))
+        ok = ok and mk is not None and const_int(mk["E_m"]) == zmask_r
     ctx.check(ok, "C09.R2", "EnvelopeHeader.from_bytes: zstd read from bit 0", m.path, fb.lineno, "the decoder must read the compression flag with the mask the encoder sets", fb,
-              found=u(zr[0].value) if zr else "")
+              found=zfound)
     cfg = m.classes.get("EnvelopeConfig")
     mh = cfg.methods.get("_make_header")
-    ok = mh is not None and u(real_body(mh)[-1]) == "return EnvelopeHeader(format=self.format, zstd=self.zstd is not None)"
+    mps = ctx.paths(f"{ENV}.EnvelopeConfig._make_header") if mh else []
+    ok = bool(mps) and all(p.kind == "return" and u(p.value) == "EnvelopeHeader(self.format, self.zstd is not None)" for p in mps)
     ctx.check(ok, "C09.R2", "EnvelopeConfig._make_header", m.path, mh.lineno if mh else 1,
-              "the header's flag must be `zstd is not None` (level 0 is a valid compression level)", mh, found=u(real_body(mh)[-1]) if mh else "")
+              "the header's flag must be `zstd is not None` (level 0 is a valid compression level)", mh, found="; ".join(p.describe() for p in mps)[:200])
     me = m.functions.get("make_envelope")
-    comp = [n for n in ast.walk(me) if isinstance(n, ast.If) and any(call_name(c) == "compress" for c in calls_in(n))]
-    ok = len(comp) == 1 and u(comp[0].test) == "config.zstd is not None" and "pyzstd.compress(payload, config.zstd)" in u(comp[0])
-    if ok:
-        # on every path through the guarded block the payload becomes the compressed bytes (the header flag is unconditional)
-        gb = CFG(comp[0].body)
-        assigns = gb.where(lambda st: isinstance(st, ast.Assign) and u(st.targets[0]) == "payload")
-        good = [a for a in assigns if _is_compressed(gb.stmt[a].value, comp[0])]
-        ok = bool(good) and EXIT not in gb.reachable(0, avoid=set(good)) and len(assigns) == len(good) and not comp[0].orelse
-    ctx.check(ok, "C09.R2", "make_envelope: compresses iff configured", m.path, me.lineno,
-              "the payload is compressed under exactly the condition that sets the header flag (zstd is not None)", me, found=u(comp[0].test) if comp else "")
-    dec = [n for n in ast.walk(re_) if isinstance(n, ast.If) and any(call_name(c) == "decompress" for c in calls_in(n))]
-    ok = len(dec) == 1 and u(dec[0].test) == "header.zstd" and "payload = pyzstd.decompress(payload)" in u(dec[0])
+    pk_p, cf_p = me.args.args[0].arg, me.args.args[1].arg
+    eps = [p for p in ctx.paths(f"{ENV}.make_envelope") if p.kind == "return"]
+    ok_c = ok_h = bool(eps)
+    payloads = {}
+    for p in eps:
+        parts = byte_parts(p, p.value)
+        z = [k for t, k in p.tests if u(t) == f"{cf_p}.zstd is not None"]
+        if parts is None or len(parts) < 2 or not z:
+            ok_c = ok_h = False
+            continue
+        ok_h = ok_h and parts[0] == ("bytes", f"{cf_p}._make_header().to_bytes()")
+        body = parts[1:]
+        if z[0]:
+            e = tmatch(ast.parse(body[0][1], mode="eval").body, T(f"pyzstd.compress(E_p, {cf_p}.zstd)")) if len(body) == 1 else None
+            ok_c = ok_c and e is not None
+            pl = e["E_p"] if e else None
+        else:
+            ok_c = ok_c and not any("compress" in b[1] for b in body)
+            pl = " + ".join(b[1] for b in body)
+        fmt = [u(t).split("EnvelopeFormat.")[-1] for t, k in p.tests if k and f"{cf_p}.format" in u(t) and "EnvelopeFormat." in u(t)]
+        if fmt and pl is not None:
+            payloads.setdefault(fmt[-1], set()).add(pl)
+    ctx.check(ok_c, "C09.R2", "make_envelope: compresses iff configured", m.path, me.lineno,
+              "the payload is compressed under exactly the condition that sets the header flag (zstd is not None)", me)
+    ok = bool(rps)
+    for p in rps:
+        z = [k for t, k in p.tests if u(t) == f"EnvelopeHeader.from_bytes({ep}).zstd"]
+        dec = [e for e in p.effects if isinstance(e, ast.Expr) and isinstance(e.value, ast.Call) and u(e.value.func).endswith("decompress")]
+        ok = ok and bool(z) and (len(dec) == 1 and u(dec[0].value) == f"pyzstd.decompress({ep}[10:])" if z[0] else not dec)
     ctx.check(ok, "C09.R2", "read_envelope: decompresses iff flagged", m.path, re_.lineno, "", re_)
-    hdr_first = "config._make_header().to_bytes()" in u(me) and u(me).index("_make_header") < u(me).index("envelope += payload")
-    ctx.check(hdr_first, "C09.R2", "make_envelope: header then payload", m.path, me.lineno, "", me)
+    ctx.check(ok_h, "C09.R2", "make_envelope: header then payload", m.path, me.lineno, "", me)
     # ---- R3
-    g = CFG(real_body(fb))
-    rs = _raise_nodes(g, "ValueError")
-    rets = [n for n, s in g.stmt.items() if isinstance(s, ast.Return)]
-    specs = {"short input": "len(data) < 10", "wrong magic": "data[:8] != MAGIC_NUMBERS"}
-    for what, test in specs.items():
-        hit = [r for r in rs if any(u(g.stmt[t]) == test and lab == "T" for t, lab in _controlling_tests(g, r))]
-        ok = bool(hit)
-        tnode = [n for n, s in g.stmt.items() if g.kind.get(n) == "test" and u(s) == test]
-        ok = ok and bool(tnode) and all(r not in g.reachable(0, avoid=set(tnode)) for r in rets)
+    specs = {"short input": (f"len({dp}) < 10", True), "wrong magic": (f"{dp}[:8] == MAGIC_NUMBERS", False)}
+    for what, (test, pol) in specs.items():
+        hit = [p for p in fps if p.has_test(test, pol) is not None]
+        ok = bool(hit) and all(p.kind == "raise" and p.value is not None and u(p.value).startswith("ValueError") for p in hit) and \
+            all(p.has_test(test, not pol) is not None for p in rets) and bool(rets)
         ctx.check(ok, "C09.R3", f"EnvelopeHeader.from_bytes: rejects {what}", m.path, fb.lineno,
-                  f"{what} must raise ValueError before a header is returned (test `{test}` dominating the return)", fb)
-    fmt = [s for s in ast.walk(fb) if isinstance(s, (ast.Assign, ast.AnnAssign)) and isinstance(s.value, ast.Call) and u(s.value.func) == "EnvelopeFormat"]
-    ok = len(fmt) == 1 and u(fmt[0].value.args[0]) == "data[8]" and "Enum" in ef.base_names()
+                  f"{what} must raise ValueError before a header is returned (test `{test}` on every returning path)", fb)
+    ok = bool(hdr_args) and all(e is not None and e["E_f"] == f"EnvelopeFormat({dp}[8])" for e in hdr_args) and "Enum" in ef.base_names()
     ctx.check(ok, "C09.R3", "EnvelopeHeader.from_bytes: rejects unknown format bytes", m.path, fb.lineno,
               "the format byte must be decoded by the Enum lookup EnvelopeFormat(data[8]), which raises ValueError for values that are no member", fb)
     swallow = []
@@ -149,11 +261,13 @@ def run(ctx) -> None:
     ctx.check("_missing_" not in ef.methods, "C09.R3", "EnvelopeFormat has no _missing_ fallback", m.path, ef.node.lineno, "", ef.methods.get("_missing_"))
     # ---- R4
     mes = m.functions.get("make_envelope_str")
-    g = CFG(real_body(mes))
-    rs = _raise_nodes(g, "ValueError")
-    enc = g.where(lambda s: "make_envelope(" in u(s))
-    ok = len(rs) == 1 and any(u(g.stmt[t]) == "not config.format.ascii_printable()" and lab == "T" for t, lab in _controlling_tests(g, rs[0])) and \
-        bool(enc) and all(e not in g.reachable(0, avoid={t for t, _ in _controlling_tests(g, rs[0])}) for e in enc)
+    sps = ctx.paths(f"{ENV}.make_envelope_str")
+    scf = mes.args.args[1].arg
+    gate = f"{scf}.format.ascii_printable()"
+    refused = [p for p in sps if p.has_test(gate, False) is not None]
+    allowed = [p for p in sps if p.has_test(gate, True) is not None]
+    ok = bool(refused) and all(p.kind == "raise" and u(p.value).startswith("ValueError") and not any("make_envelope(" in x for x in p.effect_texts()) for p in refused) \
+        and bool(allowed) and len(refused) + len(allowed) == len(sps)
     ctx.check(ok, "C09.R4", "make_envelope_str: gate before encoding", m.path, mes.lineno, "text encoding must be refused with ValueError unless the format is ASCII-printable", mes)
     ap = ef.methods.get("ascii_printable")
     pr = set()
@@ -161,36 +275,49 @@ def run(ctx) -> None:
         for n in ast.walk(ap):
             if isinstance(n, ast.Attribute) and isinstance(n.value, ast.Name) and n.value.id == "EnvelopeFormat" and n.attr in members:
                 pr.add(members[n.attr])
+        # the members named are the printable ones (not the complement)
+        aps = ctx.paths(f"{ENV}.EnvelopeFormat.ascii_printable")
+        pos = all(p.kind == "return" and (tmatch(p.value, T("self in E_s")) is not None or tmatch(p.value, T("self is E_m")) is not None or tmatch(p.value, T("self == E_m")) is not None
+                                          or (isinstance(p.value, ast.Constant) and isinstance(p.value.value, bool))) for p in aps)
+        if not pos:
+            pr = {-1}
     ctx.check(pr == printable_r, "C09.R4", "EnvelopeFormat.ascii_printable members", m.path, ap.lineno if ap else 1,
               "exactly the formats the Rust side marks printable may be offered as text", ap, expected=str(sorted(printable_r)), found=str(sorted(pr)))
     ctx.check(all(0x20 <= v <= 0x7E for v in pr) and 0x20 <= (flags_r | zmask_r) <= 0x7E and 0x20 <= flags_r <= 0x7E, "C09.R4", "printable header bytes", m.path, ef.node.lineno,
               "the format byte of a printable format and both possible flags bytes must be printable ASCII", ef.node)
     # ---- R5
-    for fn, who in ((me, "make_envelope"), (re_, "read_envelope")):
-        ms = [n for n in ast.walk(fn) if isinstance(n, ast.Match)]
+    for who, qps, subj in (("make_envelope", ctx.paths(f"{ENV}.make_envelope"), f"{cf_p}.format"), ("read_envelope", rps, f"EnvelopeHeader.from_bytes({ep}).format")):
         handled = set()
-        for mt in ms:
-            for c in mt.cases:
-                for n in ast.walk(c.pattern):
-                    if isinstance(n, ast.MatchValue) and u(n.value).startswith("EnvelopeFormat."):
-                        handled.add(u(n.value).split(".")[1])
-        ctx.check(handled == set(members), "C09.R5", f"{who}: every format handled", m.path, fn.lineno,
-                  f"{who} must have an arm for every EnvelopeFormat member", fn, expected=str(sorted(members)), found=str(sorted(handled)))
-    jarm = [c for n in ast.walk(re_) if isinstance(n, ast.Match) for c in n.cases if "EnvelopeFormat.JSON" in u(c.pattern)]
-    ok = len(jarm) == 1 and "ext_s.Package.model_validate_json(payload).deserialize()" in u(jarm[0])
+        for p in qps:
+            for t, k in p.tests:
+                e = tmatch(t, T(f"{subj} == EnvelopeFormat.L_m")) or tmatch(t, T(f"{subj} is EnvelopeFormat.L_m"))
+                if e is not None:
+                    handled.add(e["L_m"])
+        # members without an arm of their own are handled if the default path (no arm taken) refuses with ValueError
+        default = [p for p in qps if not any(k for t, k in p.tests if "EnvelopeFormat." in u(t) and subj in u(t))]
+        if default and all(p.kind == "raise" and u(p.value).startswith("ValueError") for p in default):
+            handled |= set(members)
+        fn_ = me if who == "make_envelope" else re_
+        ctx.check(handled == set(members), "C09.R5", f"{who}: every format handled", m.path, fn_.lineno,
+                  f"{who} must have an arm for every EnvelopeFormat member", fn_, expected=str(sorted(members)), found=str(sorted(handled)))
+    jp = [p for p in rps if any(k and u(t) in (f"EnvelopeHeader.from_bytes({ep}).format == EnvelopeFormat.JSON", f"EnvelopeHeader.from_bytes({ep}).format is EnvelopeFormat.JSON") for t, k in p.tests)]
+    ok = bool(jp) and all(p.kind == "return" and tmatch(p.value, T("ext_s.Package.model_validate_json(E_pl).deserialize()")) is not None for p in jp)
     ctx.check(ok, "C09.R5", "read_envelope: JSON arm validates the package model", m.path, re_.lineno, "", re_)
-    jw = [c for n in ast.walk(me) if isinstance(n, ast.Match) for c in n.cases if "EnvelopeFormat.JSON" in u(c.pattern)]
-    ok = len(jw) == 1 and "package._to_serial().model_dump_json()" in u(jw[0]) and "encode('utf-8')" in u(jw[0])
-    ctx.check(ok, "C09.R5", "make_envelope: JSON arm dumps the package model as UTF-8", m.path, me.lineno, "", me)
+    ok = payloads.get("JSON") == {f"{pk_p}._to_serial().model_dump_json().encode('utf-8')"}
+    ctx.check(ok, "C09.R5", "make_envelope: JSON arm dumps the package model as UTF-8", m.path, me.lineno, "", me, found=str(payloads.get("JSON")))
     res = m.functions.get("read_envelope_str")
-    ok = res is not None and u(real_body(res)[-1]) == "return read_envelope(envelope.encode('utf-8'))" and "envelope.decode('utf-8')" in u(mes)
+    qs = ctx.paths(f"{ENV}.read_envelope_str") if res else []
+    ok = bool(qs) and all(p.kind == "return" and u(p.value) == f"read_envelope({res.args.args[0].arg}.encode('utf-8'))" for p in qs) and \
+        all(p.kind == "return" and u(p.value) == f"make_envelope({mes.args.args[0].arg}, {scf}).decode('utf-8')" for p in allowed)
     ctx.check(ok, "C09.R5", "string variants use UTF-8 both ways", m.path, res.lineno if res else 1, "", res)
     pk = prog.cls("hugr.package.Package")
-    pairs2 = {"from_bytes": "read_envelope(envelope)", "from_str": "read_envelope_str(envelope)", "to_bytes": "make_envelope(self, config)", "to_str": "make_envelope_str(self, config)"}
+    pairs2 = {"from_bytes": "read_envelope(envelope)", "from_str": "read_envelope_str(envelope)", "to_bytes": "make_envelope(self, config or EnvelopeConfig.BINARY)",
+              "to_str": "make_envelope_str(self, config or EnvelopeConfig.TEXT)"}
     for name, want in pairs2.items():
         fn = pk.methods.get(name)
-        ok = fn is not None and u(real_body(fn)[-1]) == f"return {want}"
-        ctx.check(ok, "C09.R5", f"Package.{name}", pk.module.path, fn.lineno if fn else 1, f"Package.{name} must end in {want}", fn)
+        qs = ctx.paths(f"hugr.package.Package.{name}") if fn else []
+        ok = bool(qs) and all(p.kind == "return" and u(p.value) == want for p in qs)
+        ctx.check(ok, "C09.R5", f"Package.{name}", pk.module.path, fn.lineno if fn else 1, f"Package.{name} must end in {want}", fn, found="; ".join(p.describe() for p in qs)[:200])
     # ---- R6
     nf = NF(prog)
     ts = pk.methods.get("_to_serial")
@@ -204,8 +331,13 @@ def run(ctx) -> None:
         ok = v is not None and v[0] == "map" and v[2] == attr(s, f) and v[1][2] in (("enc", v[1][1]), ("call", "._to_serial", (v[1][1],), ()))
         ctx.check(ok, "C09.R6", f"Package._to_serial: {f}", pk.module.path, ts.lineno, f"every element of {f} is serialized, in order", ts, found=show(v) if v else "")
     ds = sp.methods.get("deserialize")
-    src = u(ds)
-    ok = "modules=[Hugr._from_serial(m) for m in self.modules]" in src and "extensions=[e.deserialize() for e in self.extensions]" in src
+    from ..rulekit import arg_of
+    cds = ctx.cfn("hugr._serialization.extension.Package.deserialize")
+    pcalls = [c for c in calls_in(cds) if u(c.func).split(".")[-1] == "Package"]
+    ok = len(pcalls) == 1
+    if ok:
+        am, ae = arg_of(ctx, pcalls[0], "modules", sp.module, sp), arg_of(ctx, pcalls[0], "extensions", sp.module, sp)
+        ok = am is not None and ae is not None and u(am) == "[Hugr._from_serial(c0) for c0 in self.modules]" and u(ae) == "[c0.deserialize() for c0 in self.extensions]"
     ctx.check(ok, "C09.R6", "serial Package.deserialize", sp.module.path, ds.lineno, "every module and extension is decoded, in order", ds)
     f = sp.find_field("extensions")
     ctx.check(f is not None and f.default_factory is not None, "C09.R6", "serial Package.extensions default", sp.module.path, f.node.lineno if f else 1, "", f.node if f else None)
